@@ -219,7 +219,19 @@ pub fn run(tier: Tier) -> ! {
         }
     }
     chk.set("api_base_models", json!(bases.len()));
-    let news: Vec<Vec<WR>> = gen::subsets_upto(words.len(), 2).iter().map(|ix| ix.iter().map(|&i| dict_entry(&words[i], 40 + i as u64)).collect()).collect();
+    let mut news: Vec<Vec<WR>> = gen::subsets_upto(words.len(), 2).iter().map(|ix| ix.iter().map(|&i| dict_entry(&words[i], 40 + i as u64)).collect()).collect();
+    // a dictionary is a LIST: every sequence of up to 3 records over 4 words, repeated words included
+    // (adjacent and separated), each record with its own weights and comment
+    let pick = [0usize, 1, 2, 5];
+    for seq in (2..=3).flat_map(|l| gen::vectors(4, l)) {
+        let seq: Vec<usize> = seq.iter().map(|&x| pick[x as usize]).collect();
+        let mut distinct = seq.clone();
+        distinct.sort();
+        distinct.dedup();
+        if distinct.len() < seq.len() {
+            news.push(seq.iter().enumerate().map(|(k, &i)| dict_entry(&words[i], 400 + 17 * k as u64 + i as u64)).collect());
+        }
+    }
     chk.set("api_new_dictionaries", json!(news.len()));
     bases.par_iter().for_each(|b| {
         for new in &news {
@@ -267,8 +279,9 @@ pub fn run(tier: Tier) -> ! {
             chk.violation(format!("{k} words=long{i}"), what, json!({"kind": "cli", "label": format!("long{i}"), "dict": [d]}));
         }
     }
-    // all hostile words together in one dictionary, and the empty dictionary
-    for (tag, dict) in [("all", hostile.iter().enumerate().map(|(i, w)| mk(i, w)).collect::<Vec<_>>()), ("none", vec![])] {
+    // all hostile words together in one dictionary, the empty dictionary, and lists with repeated words
+    let rep = |ix: &[usize]| ix.iter().enumerate().map(|(k, &i)| mk(i + 3 * k, &hostile[i % hostile.len()])).collect::<Vec<_>>();
+    for (tag, dict) in [("all", hostile.iter().enumerate().map(|(i, w)| mk(i, w)).collect::<Vec<_>>()), ("none", vec![]), ("repeat-adjacent", rep(&[0, 0, 1])), ("repeat-separated", rep(&[0, 1, 0])), ("repeat-thrice", rep(&[6, 6, 6, 2, 2]))] {
         chk.eval(1);
         chk.nontrivial(1);
         if let Some((k, what)) = check_cli(&dict, tag) {
